@@ -38,7 +38,7 @@ var controls = []control{
 	{"exhaustion-not-absorbing", []string{"C09", "C02"}, true, "seq/seq.go", "\t\td.next = nil\n\t\td.current = zero[V]()", "\t\td.current = zero[V]()", "SEQ.GEN"},
 	{"send-passes-zero", []string{"C09"}, true, "seq/seq.go", "\tif d.moveNext(v) {", "\tif d.moveNext(zero[V]()) {", "SEQ.GEN"},
 	{"current-not-reset", []string{"C09"}, false, "seq/seq.go", "\t\td.next = nil\n\t\td.current = zero[V]()\n", "\t\td.next = nil\n", "SEQ.GEN"},
-	{"integer-iter-off-by-one", []string{"C10", "C04"}, true, "seq/iter.go", "return i.i < i.n", "return i.i <= i.n", "ITER.IV"},
+	{"integer-iter-off-by-one", []string{"C10", "C04"}, true, "seq/iter.go", "\tif i.next >= i.n {", "\tif i.next > i.n {", "ITER.IV"},
 	{"string-iter-runelen", []string{"C10"}, true, "seq/iter.go", "s.next += w", "s.next += utf8.RuneLen(r) + w - w", "ITER.STR"},
 	{"map-iter-panicking-assert", []string{"C10"}, false, "seq/iter.go", "k, _ := m.iter.Key().Interface().(K)", "k := m.iter.Key().Interface().(K)", "ITER.ASSERT"},
 	{"slice-iter-copies", []string{"C10"}, false, "seq/iter.go", "return &sliceIter[V]{slice: slice, idx: -1}", "return &sliceIter[V]{slice: append([]V(nil), slice...), idx: -1}", "ITER.IV"},
@@ -103,7 +103,7 @@ var controls = []control{
 	{"chan-iter-value-dropped", []string{"C10"}, false, "seq/iter.go", "\tc.v, ok = <-c.ch\n", "\t_, ok = <-c.ch\n", "ITER.CHAN"},
 	{"slice-iter-reads-first-element", []string{"C10"}, false, "seq/iter.go", "return pair[int, V]{Key: s.idx, Val: s.slice[s.idx]}", "return pair[int, V]{Key: s.idx, Val: s.slice[0]}", "ITER.LIVE"},
 	{"map-iter-skips-entries", []string{"C10", "C04"}, false, "seq/iter.go", "\treturn m.iter.Next()\n", "\tm.iter.Next()\n\treturn m.iter.Next()\n", "ITER.MAP"},
-	{"current-advances", []string{"C10"}, false, "seq/iter.go", "\treturn pair[int, any]{Key: i.i}\n", "\ti.i++\n\treturn pair[int, any]{Key: i.i - 1}\n", "ITER.PURE"},
+	{"current-advances", []string{"C10"}, false, "seq/iter.go", "\treturn pair[T, any]{Key: i.i}\n", "\ti.i++\n\treturn pair[T, any]{Key: i.i - 1}\n", "ITER.PURE"},
 	{"redundant-return-removed-when-reachable", []string{"C01"}, false, "rewriter/yield_rewrite.go", "\t\t\t\t\tif r.isTerminating(X.Block(stmts...)) {\n\t\t\t\t\t\tbody.List = stmts", "\t\t\t\t\tif !r.isTerminating(X.Block(stmts...)) {\n\t\t\t\t\t\tbody.List = stmts", "RW.BRANCHCTX.RMRET"},
 	{"native-range-body-not-visited", []string{"C12"}, false, "rewriter/yield_rewrite.go", "\t\t\tr.rewriteBlockStmt(rg.Body, kindFor)\n", "\t\t\t_ = rg\n", "RW.DEEPVISIT"},
 	{"seq-used-under-other-name", []string{"C11"}, false, "rewriter/rewrite.go", "\t\t\tseqName = importSeqName\n", "\t\t\tseqName = pkgSeqName\n", "RW.IMPORT"},
